@@ -52,6 +52,55 @@ static int64_t pick_val(FuzzedDataProvider &fdp) {
     return fdp.ConsumeIntegralInRange<int64_t>(-20, 40);
 }
 
+static void emit(std::vector<uint8_t> &code, uint8_t op, int64_t a = 0, int64_t b = 0, int64_t c = 0) {
+    DecodedInstruction d;
+    memset(&d, 0, sizeof d);
+    d.opcode = op;
+    const InstructionInfo *info = isa_get_info(op);
+    if (!info) return;
+    d.operand_count = info->operand_count;
+    int64_t v[3] = {a, b, c};
+    for (int k = 0; k < info->operand_count && k < 3; k++) {
+        switch (info->operands[k]) {
+            case OPERAND_U8: d.operands[k].u8 = (uint8_t)v[k]; break;
+            case OPERAND_U16: d.operands[k].u16 = (uint16_t)v[k]; break;
+            case OPERAND_U32: d.operands[k].u32 = (uint32_t)v[k]; break;
+            case OPERAND_I32: d.operands[k].i32 = (int32_t)v[k]; break;
+            case OPERAND_I64: d.operands[k].i64 = v[k]; break;
+            case OPERAND_F64: d.operands[k].f64 = (double)v[k]; break;
+            default: break;
+        }
+    }
+    uint8_t buf[ISA_MAX_INSTRUCTION_SIZE];
+    uint32_t n = isa_encode(&d, buf, sizeof buf);
+    code.insert(code.end(), buf, buf + n);
+}
+
+// Shapes no compiler output has but any verifier-accepted module may build: containers that (indirectly) contain
+// themselves, then consumed by the recursive consumers (print, string conversion, comparison, release).
+static void emit_idiom(std::vector<uint8_t> &code, FuzzedDataProvider &fdp) {
+    int wrap = fdp.ConsumeIntegralInRange<int>(0, 5);
+    emit(code, OP_ARR_NEW, TAG_ARRAY);
+    emit(code, OP_DUP);
+    emit(code, OP_DUP);
+    switch (wrap) {                       // what stands between the array and itself
+        case 1: emit(code, OP_UNION_CONSTRUCT, 0, 0, 1); break;
+        case 2: emit(code, OP_TUPLE_NEW, 1); break;
+        case 3: emit(code, OP_STRUCT_LITERAL, 0, 1); break;
+        case 4: emit(code, OP_TUPLE_NEW, 1); emit(code, OP_UNION_CONSTRUCT, 0, 1, 1); break;
+        case 5: emit(code, OP_CLOSURE_NEW, 0, 1); break;
+        default: break;
+    }
+    emit(code, OP_ARR_PUSH);
+    switch (fdp.ConsumeIntegralInRange<int>(0, 4)) {
+        case 0: emit(code, OP_PRINTLN); break;
+        case 1: emit(code, OP_CAST_STRING); emit(code, OP_POP); break;
+        case 2: emit(code, OP_DUP); emit(code, OP_EQ); emit(code, OP_POP); break;
+        case 3: emit(code, OP_PRINT); break;
+        default: emit(code, OP_POP); break;
+    }
+}
+
 static std::vector<uint8_t> build_structured(FuzzedDataProvider &fdp) {
     NvmModule *m = nvm_module_new();
     int nstr = fdp.ConsumeIntegralInRange<int>(0, 6);
@@ -65,6 +114,7 @@ static std::vector<uint8_t> build_structured(FuzzedDataProvider &fdp) {
         std::vector<uint8_t> code;
         int ninstr = fdp.ConsumeIntegralInRange<int>(0, 40);
         for (int i = 0; i < ninstr; i++) {
+            if (fdp.ConsumeIntegralInRange<int>(0, 15) == 0) { emit_idiom(code, fdp); continue; }
             DecodedInstruction d;
             memset(&d, 0, sizeof d);
             d.opcode = ALPHABET[fdp.ConsumeIntegralInRange<size_t>(0, sizeof ALPHABET - 1)];
